@@ -45,6 +45,15 @@ pub fn run() {
         }
         let (mut tx, mut rx) = (tx, rx);
         let mut spawned: Option<std::process::Child> = None;
+        let mut first_got: Option<u32> = None;
+        if how == "partial" {
+            // the first owner takes ONE of the queued messages with a plain receive, then the receiver travels on: the new owner gets
+            // every other message exactly once, in order (nothing the first owner did not return may be held back by its handle)
+            first_got = rx.try_recv().ok();
+            let (ctx, crx) = ipc::channel::<ipc::IpcReceiver<u32>>().unwrap();
+            ctx.send(rx).unwrap();
+            rx = crx.recv().unwrap();
+        }
         if how == "polled" {
             // ... then it is moved through a message (one hop); later traffic must reach the new owner, whatever receive it uses
             let (ctx, crx) = ipc::channel::<ipc::IpcReceiver<u32>>().unwrap();
@@ -87,7 +96,7 @@ pub fn run() {
         let mut child = 0;
         let mut carrier_keep = None;
         let dropper: Option<std::thread::JoinHandle<()>> = match how.as_str() {
-            "polled" | "kept" => Some(std::thread::spawn(move || {
+            "polled" | "kept" | "partial" => Some(std::thread::spawn(move || {
                 drop(extra);
                 // messages sent only after the transfer, with the new owner already waiting; then the last sender goes
                 for k in 0..clones as u32 {
@@ -179,6 +188,6 @@ pub fn run() {
             let _ = std::panic::catch_unwind(std::panic::AssertUnwindSafe(move || drop(old)));
             std::panic::set_hook(hook);
         }
-        println!("{}", json!({"kind":"wake","id":id,"out":out,"got":got,"us":us,"polled_empty":polled_empty,"stolen":stolen}));
+        println!("{}", json!({"kind":"wake","id":id,"out":out,"got":got,"us":us,"polled_empty":polled_empty,"stolen":stolen,"first":first_got}));
     }
 }
